@@ -295,6 +295,10 @@ def run(ctx):
         self_cls = fi.cls.name if fi.cls else None
         paths = paths_of(ctx, fi, self_cls)
         if any(e.kind == "NEWCTX" for p in paths for e in p.events):
+            if fi.cls is None and getattr(fi, "outer", None) is None and not any(isinstance(pp, ast.FunctionDef) for pp in parents(fi.node)):
+                # a package-level scope factory is judged where it is used: S inlines it into the protocol methods that call it, and a
+                # method whose call could not be inlined is reported below ("returns without creating its nested context")
+                continue
             n = check_newctx(ctx, fi, paths)
             total += n
     ctx.extra["newctx_sites"] = total
